@@ -1,6 +1,7 @@
 // In-crate Kani harness for net::client::stream::Queries (private), included by the hook
 // hook: #[cfg(kani)] mod verif_kani { include!("/verif/kani/incrate/<file>.rs"); }
 use super::Queries;
+use std::vec::Vec;
 
 const SLOTS: usize = 4;
 
@@ -60,3 +61,79 @@ pub fn c15_queries_match_model_bounded() {
     }
     kani::cover!(q.count == 2);
 }
+
+const STEP_SLOTS: usize = 6;
+
+/// One operation from ANY well-formed state (the representation invariant of the Verus unit `queries`: `curr` is at
+/// most the first free slot, `count` is the number of occupied slots): `insert` never hands out a slot that is
+/// occupied and changes no other slot; `try_remove` returns what was stored; the invariant is preserved.
+/// Because every reachable state is well formed (Verus, unbounded), this covers every history -- bounded only in
+/// the table size (at most 6 slots).
+#[kani::proof]
+#[kani::unwind(9)]
+pub fn c15_queries_step_from_any_state_bounded() {
+    let len: usize = kani::any();
+    kani::assume(len <= STEP_SLOTS);
+    let cells: [Option<u8>; STEP_SLOTS] = kani::any();
+    let mut vec: Vec<Option<u8>> = Vec::new();
+    let mut count = 0;
+    let mut first_free = len;
+    let mut i = 0;
+    while i < len {
+        vec.push(cells[i]);
+        if cells[i].is_some() {
+            count += 1;
+        } else if first_free == len {
+            first_free = i;
+        }
+        i += 1;
+    }
+    let curr: usize = kani::any();
+    kani::assume(curr <= first_free);
+    let mut q: Queries<u8> = Queries { count, curr, vec };
+    let val: u8 = kani::any();
+    let do_insert: bool = kani::any();
+    if do_insert {
+        kani::cover!(len == STEP_SLOTS && count == 3 && first_free == 1 && curr == 1);
+        match q.insert(val) {
+            Ok((id, item)) => {
+                let id = id as usize;
+                assert!(*item == val);
+                assert!(id <= len && id < STEP_SLOTS + 1);
+                // the slot was free (or is new): no outstanding request loses its ID
+                assert!(id == len || cells[id].is_none());
+                assert!(q.vec[id] == Some(val));
+                assert!(q.count == count + 1);
+                let mut j = 0;
+                while j < len {
+                    if j != id {
+                        assert!(q.vec[j] == cells[j]);
+                    }
+                    j += 1;
+                }
+            }
+            Err(_) => assert!(false),
+        }
+    } else {
+        let idx: u16 = kani::any();
+        kani::assume((idx as usize) <= STEP_SLOTS);
+        let got = q.try_remove(idx);
+        let expect = if (idx as usize) < len { cells[idx as usize] } else { None };
+        assert!(got == expect);
+        assert!(q.count == count - (if expect.is_some() { 1 } else { 0 }));
+    }
+    // invariant preserved
+    assert!(q.curr <= q.vec.len());
+    let mut j = 0;
+    let mut n = 0;
+    while j < q.vec.len() {
+        if q.vec[j].is_some() {
+            n += 1;
+        } else {
+            assert!(q.curr <= j);
+        }
+        j += 1;
+    }
+    assert!(q.count == n);
+}
+include!("/verif/kani/incrate/gen/repo_client.rs");
